@@ -57,7 +57,7 @@ Definition id1 (n : nat) : nat := 2 * n + 1.
 
 (* _add_copy(p2, c): a new node in t2 around the same data object; t2 is a
    fresh tree of t0's class with the default calc_data_id, so data_id =
-   hash(data); the kind of a typed node is kept (repair D60), meta is not
+   hash(data); the kind of a typed node is kept (repair D62), meta is not
    copied *)
 Definition res_info (i : info) (m : meta) : info :=
   I (i_obj i) (i_eqc i) (i_hash i) (i_isstr i) (i_name i) (DInt (i_hash i)) (i_kind i) m.
